@@ -106,6 +106,7 @@ class World:
         c.assume(z3.ForAll([a, b], z3.Implies(z3.And(self.init(a), self.init(b), a < b), self.rank(a) < self.rank(b))))
         self.fs = FSState()
         self.frame = []
+        self.opened = []
 
     def need_sequences(self):
         """facts about the two lists as SEQUENCES (length, element at a position): only added when the code asks for a length,
@@ -397,6 +398,7 @@ class FKeys:
 class FileView:
     def __init__(self, w, i, mode):
         self.w, self.i, self.mode = w, i, mode
+        w.opened.append((i, mode))
 
     def __enter__(self):
         return self
@@ -645,8 +647,12 @@ class Driver:
             else:
                 loc2[names[0]] = Z(i)
             self.cur_i = i
+            nopen = len(w.opened)
             completed = self.run_stmts(node.body, loc2) != 'break'
             c.require('loop 0: body does not break', z3.BoolVal(completed))
+            op = w.opened[nopen:]
+            c.require("loop 0: the body opens exactly the file of its iteration, in append mode (the file exists afterwards, other files are not created)",
+                      z3.BoolVal(len(op) >= 1 and all(z3.eq(z3.simplify(oi), z3.simplify(i)) and om == 'a' for oi, om in op)))
             idx = loc2.get('it_index')
             if self.summary1 is None:
                 c.require('loop 0: the body runs the loop over the variables', z3.BoolVal(False))
